@@ -105,7 +105,8 @@ def unary_inputs(rng, n):
         k = rng.choice((0, 0, 1, 1, 2, 2, 3))
         v = head
         for _ in range(k):
-            v = ('F', v, '\\', NP(rng.choice(('ga', 'o', 'ni', 'to'))))
+            # the label follows the clause (the head atom); what an argument carries is irrelevant
+            v = ('F', v, '\\', NP(rng.choice(('ga', 'o', 'ni', 'to')), rng.choice(('nm', 'nm', 'adn', 'adv'))))
         if rng.random() < 0.08:
             v = NP('nc', rng.choice(('adv', 'adn', 'nm')))
         out.append(v)
